@@ -20,6 +20,7 @@
 
 #include "plugins/openpixelcontrol/OPCServer.h"
 
+#include <string.h>
 #include <string>
 #include "ola/Callback.h"
 #include "ola/Logging.h"
@@ -132,26 +133,27 @@ void OPCServer::SocketReady(TCPSocket *socket, RxState *rx_state) {
   }
 
   rx_state->offset += data_received;
-  if (rx_state->offset < OPC_HEADER_SIZE) {
-    return;
-  }
+  // A single read may return more than one frame, or the start of the next
+  // frame, so handle every complete frame and keep what follows.
+  while (rx_state->offset >= OPC_HEADER_SIZE) {
+    rx_state->CheckSize();
+    const unsigned int frame_size =
+        static_cast<unsigned int>(rx_state->expected_size) + OPC_HEADER_SIZE;
+    if (rx_state->offset < frame_size) {
+      return;
+    }
 
-  rx_state->CheckSize();
-  if (rx_state->offset <
-      static_cast<unsigned int>(rx_state->expected_size) + OPC_HEADER_SIZE) {
-    return;
+    ChannelCallback *cb = STLFindOrNull(m_callbacks, rx_state->data[0]);
+    if (cb) {
+      cb->Run(rx_state->data[1],
+              rx_state->data + OPC_HEADER_SIZE,
+              rx_state->expected_size);
+    }
+    // move any remaining data to the start of the buffer
+    rx_state->offset -= frame_size;
+    memmove(rx_state->data, rx_state->data + frame_size, rx_state->offset);
+    rx_state->expected_size = 0;
   }
-
-  ChannelCallback *cb = STLFindOrNull(m_callbacks, rx_state->data[0]);
-  if (cb) {
-    DmxBuffer buffer(rx_state->data + OPC_HEADER_SIZE,
-                     rx_state->offset - OPC_HEADER_SIZE);
-    cb->Run(rx_state->data[1],
-            rx_state->data + OPC_HEADER_SIZE,
-            rx_state->expected_size);
-  }
-  rx_state->offset = 0;
-  rx_state->expected_size = 0;
 }
 
 void OPCServer::SocketClosed(TCPSocket *socket) {
